@@ -108,8 +108,133 @@ def oracle(ctx):
     return res
 
 
+MON = ['Jan', 'Feb', 'Mar', 'Apr', 'May', 'Jun', 'Jul', 'Aug', 'Sep', 'Oct', 'Nov', 'Dec']
+WDAY = ['Mon', 'Tue', 'Wed', 'Thu', 'Fri', 'Sat', 'Sun']
+
+
+def off_text(off, style):
+    sg = '-' if off < 0 else '+'
+    hh, mm = divmod(abs(off) // 60, 60)
+    if style == 'colon':
+        return '%s%02d:%02d' % (sg, hh, mm)
+    if style == 'plain':
+        return '%s%02d%02d' % (sg, hh, mm)
+    return 'Z'
+
+
+def oracle_sweep(ctx):
+    """End-to-end sweep over the documented notations: one 3-line log per (notation, number of fractional digits 0-9, offset
+    spelling), random dates 1970-2099 incl. month ends and leap days, random times of day and offsets in 15-minute steps; the
+    instant printed with -u must be the instant the text denotes (computed here from the calendar), fraction kept as written."""
+    rng = e2e.Rng(ctx.seed * 83 + 29)
+    fails, ev, dist = [], 0, {}
+    special = [(1970, 1, 2), (2000, 2, 29), (2024, 2, 29), (2099, 12, 30), (2023, 1, 31), (2038, 1, 19), (1999, 12, 31), (2100 - 1, 3, 31)]
+
+    def rdate():
+        if rng.chance(1, 3):
+            return rng.pick(special)
+        y = rng.range(1970, 2099)
+        m = rng.range(1, 12)
+        d = rng.range(1, calendar.monthrange(y, m)[1])
+        if (y, m, d) == (1970, 1, 1):
+            d = 2
+        if (y, m, d) == (2099, 12, 31):
+            d = 30
+        return (y, m, d)
+
+    # name -> (template fn(y,m,d,H,M,S,frac_text,off_text), zone styles, fraction separator)
+    N = {
+        'iso-T': (lambda y, m, d, H, M, S, f, o: f'{y:04d}-{m:02d}-{d:02d}T{H:02d}:{M:02d}:{S:02d}{f}{o} host app: msg', ['colon', 'plain', 'Z', None], '.'),
+        'iso-space': (lambda y, m, d, H, M, S, f, o: f'{y:04d}-{m:02d}-{d:02d} {H:02d}:{M:02d}:{S:02d}{f} {o} host app: msg', ['colon', 'plain', None], '.'),
+        'iso-comma': (lambda y, m, d, H, M, S, f, o: f'{y:04d}-{m:02d}-{d:02d} {H:02d}:{M:02d}:{S:02d}{f} host app: msg', [None], ','),
+        'slash': (lambda y, m, d, H, M, S, f, o: f'{y:04d}/{m:02d}/{d:02d} {H:02d}:{M:02d}:{S:02d}{f} {o} host app: msg', ['colon', None], '.'),
+        'rfc5424': (lambda y, m, d, H, M, S, f, o: f'<34>1 {y:04d}-{m:02d}-{d:02d}T{H:02d}:{M:02d}:{S:02d}{f}{o} mymachine su - ID47 - msg', ['colon', 'Z'], '.'),
+        'bracket': (lambda y, m, d, H, M, S, f, o: f'[{y:04d}-{m:02d}-{d:02d}T{H:02d}:{M:02d}:{S:02d}{f}{o}] app msg', ['colon', 'Z'], '.'),
+        'apache': (lambda y, m, d, H, M, S, f, o: f'host - - [{d:02d}/{MON[m - 1]}/{y:04d}:{H:02d}:{M:02d}:{S:02d} {o}] "GET /" msg', ['plain'], None),
+        'rfc3164-year': (lambda y, m, d, H, M, S, f, o: f'{MON[m - 1]} {d:2d} {H:02d}:{M:02d}:{S:02d} {y:04d} host app: msg', [None], None),
+        'rfc2822': (lambda y, m, d, H, M, S, f, o: f'Date: {WDAY[calendar.weekday(y, m, d)]}, {d:02d} {MON[m - 1]} {y:04d} {H:02d}:{M:02d}:{S:02d} {o} msg', ['plain'], None),
+    }
+    names = sorted(N)
+    reps = ctx.q(1, 6)
+    for name in names:
+        mk, zstyles, sep = N[name]
+        for nd in (range(0, 10) if sep else [0]):
+            for rep in range(reps):
+                zs = zstyles[(nd + rep) % len(zstyles)]
+                tzarg_off = rng.pick([0, 19800, -28800, 3600, -12600, 45900])
+                lines, want = [], []
+                for i in range(3):
+                    y, m, d = rdate()
+                    H, M, S = rng.pick([(0, 0, 0), (12, 0, 0), (23, 59, 59), (rng.below(24), rng.below(60), rng.below(60))])
+                    off = 0 if zs == 'Z' else (rng.range(-48, 56) * 900)
+                    digits = ''.join(str(rng.below(10)) for _ in range(nd))
+                    if digits and digits.strip('0') == '':
+                        digits = digits[:-1] + '7'
+                    ftxt = (sep + digits) if nd else ''
+                    otxt = off_text(off, zs) if zs else ''
+                    line = mk(y, m, d, H, M, S, ftxt, otxt).replace('  host', ' host')
+                    eff = off if zs else tzarg_off
+                    nano = int((digits + '000000000')[:9]) if nd else 0
+                    lines.append(line)
+                    want.append(ns(y, m, d, H, M, S, nano, eff))
+                data = ('\n'.join(lines) + '\n').encode()
+                path = os.path.join(ctx.work, 'sweep.log')
+                open(path, 'wb').write(data)
+                args = ['--color', 'never', '-t=' + off_text(tzarg_off, 'colon'), '-u', '-d', FMT, path]
+                rc, out, err, _ = e2e.s4(args)
+                ev += 1
+                exp = b''.join((fmt_ns(want[i]) + ':' + lines[i] + '\n').encode() for i in range(3))
+                ok = rc == 0 and out == exp
+                key = f'{name}/frac{nd}'
+                dist[name] = dist.get(name, 0) + 1
+                if not ok:
+                    fails.append({'signature': 'time:instant-differs-from-denotation:' + key,
+                                  'detail': f'{key} zone spelling {zs}: rc={rc} got {out[:200]!r} want {exp[:200]!r}', 'args': args[:-1] + ['FILE'], 'file_hex': data.hex()})
+    return {'evaluations': ev, 'distinct_nontrivial': ev, 'failures': fails, 'samples': [], 'outcomes': dist,
+            'rule': 'sweep: 9 notations x 0-9 fractional digits x zone spellings (+HH:MM, +HHMM, Z, none = --tz-offset) x random dates 1970-2099 '
+                    '(month ends, leap days), times of day, offsets in 15-minute steps: -u prefix == denoted instant'}
+
+
+def search_from_norm_disagreements(ctx):
+    """When the `time` correspondence disagrees, turn disagreeing requests into failing inputs: the request carries the
+    log line; write it to a file, run the binary and compare the instant it attributes with the model's (proved to be the
+    instant the captured text denotes)."""
+    fails, ev = [], 0
+    for res in getattr(ctx, 'corr_results', []) or []:
+        for dg in (res.get('disagreements') or [])[:12]:
+            w = dg.get('request', '').split(' ')
+            if len(w) < 6 or w[:2] != ['time', 'norm'] or 'year=' not in dg['request']:
+                continue
+            try:
+                line = bytes.fromhex(w[3])
+                tzoff = int(w[5])
+                model = int(dg['model'])
+            except ValueError:
+                continue
+            if not line.endswith(b'\n'):
+                line += b'\n'
+            path = os.path.join(ctx.work, 'dis.log')
+            open(path, 'wb').write(line * 3)
+            args = ['--color', 'never', '-t=' + off_text(tzoff, 'colon'), '-u', '-d', FMT, path]
+            rc, out, err, _ = e2e.s4(args)
+            ev += 1
+            want = (fmt_ns(model) + ':').encode() + line
+            if not out.startswith(want):
+                fails.append({'signature': 'time:instant-differs-from-denotation:row' + w[2],
+                              'detail': f'row {w[2]} line {line!r}: s4 prints {out[:60]!r}, the text denotes {fmt_ns(model)} (model, proved); in-process impl={dg["impl"]}',
+                              'args': args[:-1] + ['FILE'], 'file_hex': (line * 3).hex()})
+                if len(fails) >= 3:
+                    break
+    return {'evaluations': ev, 'distinct_nontrivial': ev, 'failures': fails, 'samples': [],
+            'rule': 'search seeded from correspondence disagreements (only runs when the time correspondence disagrees)'}
+
+
+def oracle_all(ctx):
+    return core.merge_oracles([oracle(ctx), oracle_sweep(ctx), search_from_norm_disagreements(ctx)])
+
+
 def check(ctx):
-    return core.standard_check(ctx, ['TimeTables'], MODS, [('time', 3000, 60000)], oracle, LEVEL_NOTE, ASSUME)
+    return core.standard_check(ctx, ['TimeTables'], MODS, [('time', 3000, 60000)], oracle_all, LEVEL_NOTE, ASSUME)
 
 
 def replay(ctx, data):
